@@ -64,6 +64,8 @@ pub fn run(seed: u64, ntraces: usize) {
                                                            (7, 34), (11, 43), (8, 43), (10, 23), (8, 32), (11, 32)]; }
         // directed: the operator takes the flow-limiter role away from the service, which then tries to move the limit (kinds 3/4/5: 10*caller + target)
         if t % 3 == 2 && operator.is_some() && cur_token.is_some() { forced = vec![(2, 30), (4, 10), (2, 1000), (0, 500), (0, 30), (3, 13), (2, 1000), (5, 13), (2, 7)]; }
+        // amounts and limits around 2^63 (every fourth trace): a limit of 2^63, a transfer above it (refused), one of exactly the limit, then no limit and 2^63 again
+        if t % 4 == 1 && cur_token.is_some() { forced.extend(vec![(2, 1u64 << 63), (0, (1u64 << 63) + 1), (0, 1u64 << 63), (2, 0), (0, 1u64 << 63), (0, (1u64 << 63) - 1)]); }
         // directed (native managers): issuance, then the minter calls deployInterchainToken again naming someone else; or a failed issuance retried by the minter
         if ty == 0 { let extra: Vec<(u64, u64)> = if t % 2 == 0 { vec![(14, 2), (14, 44), (16, 1), (12, 24), (14, 24), (16, 1), (12, 43), (9, 23), (14, 34)] } else { vec![(14, 2), (14, 44), (16, 0), (14, 24), (16, 1), (12, 24), (14, 3)] }; forced.extend(extra); }
         // an account holding BOTH roles (the minter after the operator hands operatorship to it) proposes one of them: only that one can be accepted
